@@ -3,11 +3,13 @@
 import json, sys
 pid = sys.argv[1]
 wt = sys.argv[2] if len(sys.argv) > 2 else "/tmp/wt-" + pid
+out = sys.argv[3] if len(sys.argv) > 3 else "/tmp/seed-" + pid
+extra = sys.argv[4] if len(sys.argv) > 4 else ""
 p = [json.loads(l) for l in open('/verif/properties.jsonl') if json.loads(l)['id'] == pid][0]
 print(f"""You are helping evaluate a verification framework for the Rust workspace dalek-cryptography/curve25519-dalek
 (crates: curve25519-dalek, ed25519-dalek, x25519-dalek, curve25519-dalek-derive). You have your own scratch git
 worktree of the repository at {wt} (a detached checkout of the pinned commit). Work ONLY inside {wt} and inside the
-output directory /tmp/seed-{pid}/ (create it). Do NOT read or touch /verif, /repo, or any other /tmp/wt-* directory.
+output directory {out}/ (create it). Do NOT read or touch /verif, /repo, or any other /tmp/wt-* directory.
 The sandbox has no network: always pass --offline to cargo (CARGO_NET_OFFLINE=true) and use only crates already
 present; please limit build parallelism with CARGO_BUILD_JOBS=4.
 
@@ -31,7 +33,7 @@ library code in {wt} such that
 Do not edit or delete existing tests, and do not change test-only code. Keep the change small (a few lines to a few
 dozen lines). Prefer subtlety over size.
 
-DELIVERABLES in /tmp/seed-{pid}/ :
+DELIVERABLES in {out}/ :
   - patch.diff : `git -C {wt} diff` of your change (library sources only; it must apply with `git apply` to a clean
     checkout).
   - a demonstration that FAILS with the change and PASSES without it: either a new integration test file
@@ -41,4 +43,5 @@ DELIVERABLES in /tmp/seed-{pid}/ :
   - notes.md : what the change is, which clause of the property it breaks, what it needs in order to manifest
     (configuration, input, sequence), the commands you ran and their outcomes (suite before/after, demo before/after).
 When done, leave the worktree with your change applied but remove its build output (rm -rf {wt}/target) to save disk.
+{extra}
 Your final message should summarise the change in 5-10 lines.""")
